@@ -279,6 +279,27 @@ fn explicit_mesh(r: &mut Rng) -> (Vec<P3>, Vec<[u32; 3]>) {
     (pts, tris)
 }
 
+/// cube corners + a (k+1)x(k+1) lattice on one or all faces, pushed outwards by 0, d, 2d or -d with d of the order of an ulp
+/// (or a quantised dome): many nearly coplanar hull vertices in a full-dimensional cloud -- the family on which the
+/// silhouette occasionally visits a vertex twice (`fix_silhouette_topology`)
+fn bumpy_cube(r: &mut Rng) -> Vec<P3> {
+    let d = *r.pick(&[1.0e-16, 2.0e-16, 4.0e-16, 1.0e-15, 3.0e-15, 1.0e-14, 1.0e-13, 1.0e-10]);
+    let k = 2 + r.below(7) as usize;
+    let mut pts: Vec<P3> = Vec::new();
+    for sx in [-1.0, 1.0] { for sy in [-1.0, 1.0] { for sz in [-1.0, 1.0] { pts.push(P3::new(sx, sy, sz)); } } }
+    let kind = r.below(3);
+    let faces = if kind == 1 { 6 } else { 1 };
+    for f in 0..faces { let (ax, sg) = (if faces == 1 { 2 } else { f / 2 }, if faces == 1 || f % 2 == 0 { 1.0 } else { -1.0 });
+        for i in 0..=k { for j in 0..=k {
+            if kind == 1 && r.bool() { continue; }
+            let (u, v) = (-1.0 + 2.0 * i as f64 / k as f64, -1.0 + 2.0 * j as f64 / k as f64);
+            let h = if kind == 2 { 1.0 + d * (4.0 * (2.0 - u * u - v * v)).round() } else { 1.0 + d * *r.pick(&[0.0, 1.0, 2.0, -1.0]) };
+            let mut c = [0.0; 3]; c[ax] = sg * h; c[(ax + 1) % 3] = u; c[(ax + 2) % 3] = v;
+            pts.push(P3::new(c[0], c[1], c[2])); } } }
+    shuffle(r, &mut pts);
+    pts
+}
+
 pub fn gen(r: &mut Rng, thorough: bool) -> Vec<(String, String)> {
     let n = if thorough { 900 } else { 300 };
     let mut v = Vec::new();
@@ -325,7 +346,9 @@ pub fn gen(r: &mut Rng, thorough: bool) -> Vec<(String, String)> {
     // fu4: the modelled 3-D quickhull, index-exact against the real code (appended so that the stream above is unchanged)
     let m3 = if thorough { 1200 } else { 400 };
     for it in 0..m3 {
-        let base = match it % 8 {
+        let base = match it % 10 {
+            8 => bumpy_cube(r),                                                                    // near-coplanar SUBSETS (bumps of a few ulps on the faces of a cube)
+            9 => { let mut p = bumpy_cube(r); let lt = r.bool(); let iso = d3::gen_iso(r, lt, 3.0); for q in p.iter_mut() { *q = iso * *q; } p }
             0 | 1 => { let np3 = 4 + r.below(60) as usize; cloud3(r, 2, np3) }                    // generic random
             2 => { let np3 = 4 + r.below(if it % 16 == 2 { 400 } else { 80 }) as usize; cloud3(r, 1, np3) }   // on a sphere
             3 => { let k3 = r.below(6); let np3 = 4 + r.below(60) as usize; cloud3(r, k3, np3) }     // lattices, voxel corners, multi-scale
